@@ -593,9 +593,12 @@ func (c *stateCtx) buildSpecials(n *chainx.Node, tip uint32) error {
 // mode applied).
 func (c *stateCtx) prepare() (*chainx.Node, error) { return c.prepareWith(c.mode) }
 
-func (c *stateCtx) prepareWith(md mode) (*chainx.Node, error) {
+func (c *stateCtx) prepareWith(md mode) (*chainx.Node, error) { return c.prepareOpts(md, c.fam.Opts()) }
+
+// prepareOpts is prepareWith for a replica with node-local options of its own.
+func (c *stateCtx) prepareOpts(md mode, opts chainx.Opts) (*chainx.Node, error) {
 	t0 := time.Now()
-	n, err := chainx.New(c.fam.Opts())
+	n, err := chainx.New(opts)
 	tNew.Add(int(time.Since(t0).Microseconds()))
 	if err != nil {
 		return nil, err
